@@ -286,6 +286,10 @@ class Interp:
                     inner = 0
             if base[1][0] in ("arg", "elem"):
                 fr.vals[iid] = ("p", ("elem", base[1][1]), inner)
+            elif base[1][0] in ("g", "gelem"):
+                # row of a constant table selected by a run-time index (rc[index][j]): the same symbolic row a
+                # cursor walking the table stands for
+                fr.vals[iid] = ("p", ("gelem", base[1][1]), inner)
             else:
                 fr.vals[iid] = ("p", base[1], None)
         elif o == "load":
@@ -957,6 +961,7 @@ def loop_transfer(prog, f, header, body, loop_paths):
                 return V.atom(("E", obj[1], byte, bit))
             return TOP
         I = Interp(prog, V, mem_default)
+        I.free_atoms = True     # loop-invariant operands computed before the loop (a hoisted constant) are symbols
         fr = Frame(f, [("p", ("arg", k), 0) for k in range(len(f.params))], 0)
         # parameters that are plain integers stay symbolic-free (TOP); pointer parameters are objects
         for k, p in enumerate(f.params):
@@ -984,7 +989,8 @@ def loop_transfer(prog, f, header, body, loop_paths):
         def enc(form):
             if form is None:
                 return "T"
-            return (frozenset(V.names_of(form[0])), form[1])
+            # instruction ids of loop-invariant operands are not comparable between functions / configurations
+            return (frozenset(("X",) if nm[0] == "X" else nm for nm in V.names_of(form[0])), form[1])
         for (obj, byte), cell in I.mem.items():
             if obj[0] == "al" and obj[1] == 0:
                 for bit, form in enumerate(cell):
